@@ -865,6 +865,14 @@ theorem rearrangement_restoring_columns_is_identity (coord : Coord) (g : Geom) (
     (h0 : r2.1.c0 = g.c0) (h1 : r2.1.c1 = g.c1) (h2 : r2.1.c2 = g.c2) : r2.1 = g ∧ ∀ j, r1.2 (r2.2 j) = j :=
   rearranging_pair_identity AxMap.size szOk_size ho hp k1 k2 e1 e2 h0 h1 h2
 
+/-- **… and so is every finite composition** (`runSteps`: the operations applied one after the other, index maps composed; by
+induction over the list): any sequence of flips, permutations, swaps, re-orientations, handedness corrections and copies after
+which the affine has the columns of the input is the identity — same shape and translation, every voxel at its original index. -/
+theorem rearranging_history_restoring_columns_is_identity (coord : Coord) (g : Geom) (ops : List SOp) (r : GStep)
+    (ho : g.Orth) (hp : g.Pos) (hall : ∀ op ∈ ops, op.rearranges = true) (h : runSteps AxMap.size coord g ops = .ok r)
+    (h0 : r.1.c0 = g.c0) (h1 : r.1.c1 = g.c1) (h2 : r.1.c2 = g.c2) : r.1 = g ∧ ∀ j, r.2 j = j :=
+  runSteps_rigid AxMap.size szOk_size coord ops ho hp hall h h0 h1 h2
+
 /-- **to_patient_orientation there and back = identity** (axis-aligned geometries, all 48 × 48 pairs, any positive spacings,
 position, shape): re-orienting to `des` and then to the original orientation gives the original shape and affine, and every
 voxel its original index. -/
@@ -968,6 +976,11 @@ theorem getitem_refuses_foreign_items (g : Geom) (items : List Item) :
   ⟨fun _ h => getitemG_no_foreign AxMap.size h, fun rest hl => getitemG_foreign_first AxMap.size g rest hl⟩
 
 /-! ## non-vacuity (round 2) -/
+
+/-- a cyclic permutation three times and a flip twice: five rearrangements that restore the columns of `g0` -/
+example : (match runSteps AxMap.size .patient g0 [.permute [1, 2, 0], .flip [2], .flip [2], .permute [1, 2, 0], .permute [1, 2, 0]] with
+    | .ok r => decide (r.1.c0 = g0.c0 ∧ r.1.c1 = g0.c1 ∧ r.1.c2 = g0.c2 ∧ r.1 = g0)
+    | .error _ => false) = true := by decide +kernel
 example : (Dir.R, Dir.A, Dir.H) ∈ allOrients ∧ (g0.inConvention (.R, .A, .H)).t = ⟨-10, 20, 5 / 4⟩ ∧
     g0.centerPosition = ⟨10 + (-1 / 2) * 1, -20 + (3 / 2) * (3 / 2), 5 / 4 + 2 * 2⟩ := by decide +kernel
 
